@@ -3,7 +3,7 @@ source text on every run into `Fc.Gen.c01<Name>Src : Fc.PyLite.Fn`; theorems `Fc
 lean/FcProofs/Props/C01_Source.lean."""
 from .. import pylite_tr as T
 
-PROPERTIES = ["C01"]
+PROPERTIES = ["C01", "C10"]
 IMPORTS = ["FcModel.PyLite"]
 FUNCS = [
     ("c01Reshape", T.PR, "_reshape"),
